@@ -2,7 +2,7 @@
 # usage: collect_mutant.sh <Cxx> [name]  -- take the change left in /tmp/mut/<Cxx>, confirm it independently in a
 # fresh scratch worktree (tests pass with it, demo fails with it and passes without it), store under seeded/
 set -u
-ID=$1; NAME=${2:-$ID-a}; WT=/tmp/mut/$ID; OUT=/verif/seeded/$NAME
+ID=$1; NAME=${2:-$ID-a}; WT=${MUTDIR:-/tmp/mut}/$ID; OUT=/verif/seeded/$NAME
 mkdir -p $OUT
 git -C $WT diff > $OUT/patch.diff
 cp $WT/demo.py $OUT/demo.py; cp $WT/meta.json $OUT/agent_meta.json 2>/dev/null
